@@ -856,7 +856,7 @@ func mainC12(e *env) {
 		}
 		reported[ms] = true
 		violations++
-		p := x.writeReplay(min, mr, fmt.Sprintf("C12-%s-%d.json", mr.Verdict, f.Seed))
+		p := x.writeReplay(min, mr, fmt.Sprintf("C12-%s-%d-%s.json", mr.Verdict, f.Seed, shortTree()))
 		fmt.Printf("violation (history %d, seed %d; %d histories in this group; minimised with %d candidate runs to %d ops):\n%s", f.I, f.Seed, len(g), tried, len(opsOf(min)), describe12(min, mr))
 		fmt.Printf("VIOLATION property=C12 replay=%s\n", p)
 		vioSamples = append(vioSamples, map[string]any{"class": mr.Verdict, "seed": f.Seed, "replay": p})
